@@ -43,6 +43,13 @@ def _changes(rng, ch):
         if ch.get('sco_v4') and rng.random() < 0.5:
             out['name'] = U.pick_string(rng)
         return out or {'size': rng.randrange(1, 1000)}
+    if ch['form'] == 'custom_obj':
+        out = {}
+        for k, v in (('name', U.pick_string(rng) or 'n'), ('description', rng.choice([U.pick_string(rng) or 'd', None])),
+                     ('labels', rng.choice([['a'], ['b', 'c'], None]))):
+            if rng.random() < 0.5:
+                out[k] = v
+        return out or {'description': 'changed'}
     minimal, rich = C.template(ver, typ)[:2]
     common = C.COMMON_OPT_20 if ver == '2.0' else C.COMMON_OPT_21
     out = {}
@@ -106,12 +113,13 @@ def _clock_spec(rng, cfg, st):
 
 class C05(Profile):
     pid = 'C05'
+    owns_registries = True      # custom_obj chains register their types (restored by the world)
     tiers = {'quick': 6000, 'thorough': 600000}
     wall_cap = {'quick': 900, 'thorough': 5 * 3600}
     probes = ['fudge_branch_2.0', 'fudge_branch_2.1', 'no_fudge_needed', 'clock_before_old', 'dict_chain_len>=3',
               'explicit_modified_sub_ms', 'sco_locked_refused', 'revoked_refused', 'reserialised_head',
               'none_removed_property', 'chain_len>=5', 'granular_marking_as_version_minter', 'remove_custom_stix',
-              'unmodifiable_removal_refused']
+              'unmodifiable_removal_refused', 'custom_registered_type_chain', 'same_name_registered_as_2.1_observable']
     rule = ('plans are generated from run_seed (1-4 chains over every versionable type of both spec versions in object / '
             'dict / unregistered-dict / SCO forms, 10-60 versioning ops each with a steered clock reading); a run is '
             'non-trivial when >=1 op produced a new version AND >=1 oracle comparison ran on it; distinct = distinct plan digests')
@@ -138,13 +146,20 @@ class C05(Profile):
         shared_type = rng.choice(['indicator', 'malware', 'identity', 'campaign', 'relationship', 'report']) if rng.random() < 0.3 else None
         for c in range(nch):
             ver = rng.choice(['2.0', '2.1'])
-            form = U.weighted(rng, [('obj', 5), ('dict', 3), ('dict_unreg', 2), ('sco_obj', 1), ('sco_dict', 1)])
+            form = U.weighted(rng, [('obj', 5), ('dict', 3), ('dict_unreg', 2), ('sco_obj', 1), ('sco_dict', 1), ('custom_obj', 1)])
+            shadow_at = None
             if form.startswith('sco'):
                 ver = '2.1'
                 typ = 'file'
+            elif form == 'custom_obj':
+                # an object type registered by the run; for a 2.0 type, the same NAME may also be taken (before or in the middle
+                # of the run) by a 2.1 observable type - a legal registration that has nothing to do with the chain
+                typ = 'x-sim-c05-thing-%d' % c
+                if ver == '2.0' and rng.random() < 0.6:
+                    shadow_at = rng.choice([0, 0, rng.randrange(1, 20)])
             else:
                 typ = shared_type or rng.choice(C.versioned_types(ver))
-            minimal, rich = (C.template(ver, typ)[:2] if not form.startswith('sco') else ({}, {}))
+            minimal, rich = (C.template(ver, typ)[:2] if form not in ('sco_obj', 'sco_dict', 'custom_obj') else ({}, {}))
             common = C.COMMON_OPT_20 if ver == '2.0' else C.COMMON_OPT_21
             base_s = 1483228800 + rng.randrange(0, 10 ** 8)
             mod_us = base_s * 1000000 + rng.choice(C.FRACTIONS)
@@ -153,7 +168,7 @@ class C05(Profile):
                 ver=ver, form=form, type=typ, id_n=index * 8 + c, mod_us=mod_us, created_us=created_us,
                 rich=[k for k in rich if rng.random() < 0.5], common=[k for k in common if rng.random() < 0.4],
                 sco_v4=rng.random() < 0.3, no_modified=(form.startswith('dict') and rng.random() < 0.15),
-                custom=rng.random() < 0.2, respell=rng.random() < 0.3,
+                custom=rng.random() < 0.2, respell=rng.random() < 0.3, shadow_at=shadow_at,
             ))
         st = {'abs': chains[0]['mod_us'] + rng.choice([-5, 0, 3, 1000]), 'n': 0}
         ops = []
@@ -221,6 +236,20 @@ class C05(Profile):
                 return o.value
             d['id'] = o.value['id']
             return d
+        if form == 'custom_obj':
+            from stix2.properties import ListProperty, StringProperty
+            V = stix2.v21 if ver == '2.1' else stix2.v20
+            reg = call(lambda: V.CustomObject(ch['type'], [('name', StringProperty(required=True)), ('description', StringProperty()),
+                                                            ('labels', ListProperty(StringProperty))])(type('Thing', (object,), {})))
+            if not reg.ok:
+                return None
+            d = {'type': ch['type'], 'id': C.mkid(ch['type'], ch['id_n']), 'name': 'n',
+                 'created': tsparse.fmt(tsparse.trunc_ms(ch['created_us']), digits=3), 'modified': tsparse.fmt(tsparse.trunc_ms(ch['mod_us']), digits=3)}
+            if ver == '2.1':
+                d.update(spec_version='2.1', created=tsparse.fmt(ch['created_us'], min_digits=3), modified=tsparse.fmt(ch['mod_us'], min_digits=3))
+            o = call(stix2.parse, d, version=ver)
+            world.probe('custom_registered_type_chain')
+            return o.value if o.ok else None
         d = C.build(ver, ch['type'], ch['id_n'], ch['created_us'], ch['mod_us'], ch['rich'], ch['common'])
         if ch.get('custom'):
             d['x_seed'] = 'custom'
@@ -255,6 +284,14 @@ class C05(Profile):
                 chains[-1]['hist'].append(U.prec_us(U.instant_us(m), ch['ver']))
         for i, op in enumerate(plan['ops']):
             world.op_index = i
+            for c in chains:
+                if c['d'].get('shadow_at') == i and c['head'] is not None:
+                    from stix2.properties import StringProperty
+                    r = call(lambda: stix2.v21.CustomObservable(c['d']['type'], [('value', StringProperty(required=True))], ['value'])(
+                        type('Shadow', (object,), {})))
+                    world.log(op='register-2.1-observable-of-same-name', type=c['d']['type'], outcome=r.tag)
+                    if r.ok:
+                        world.probe('same_name_registered_as_2.1_observable')
             st = chains[op['chain'] % len(chains)]
             if st['head'] is None:
                 continue
@@ -278,7 +315,7 @@ class C05(Profile):
         ch = st['d']
         ver, form = ch['ver'], ch['form']
         head = st['head']
-        is_obj = form in ('obj', 'sco_obj')
+        is_obj = form in ('obj', 'sco_obj', 'custom_obj')
         kind = op['op']
         world.stat('op:' + kind)
         old_val = head.get('modified') or head.get('created')
